@@ -205,10 +205,10 @@ def strat_overlap():
 def body_overlap(ctx, case):
     from pero_ocr.ocr_engine import line_ocr_engine as E
     a, b = case
-    if len(a) + len(b) >= 6 and (len(a) * 31 + len(b)) % 97 == 0:
+    import zlib
+    if zlib.crc32((a + "|" + b).encode("utf8")) % 89 == 0:
         # once in about a hundred cases: two noise-free windows of a long text line at small type (about 400 characters each,
         # overlapping by 250-300): the true overlap is a perfect match, so the detected one must be perfect too (and positive)
-        import zlib
         rs = np.random.RandomState(zlib.crc32((a + "|" + b).encode("utf8")) % (2 ** 31))
         text = "".join(rs.choice(list("abcdefgh "), size=900))
         w1, o_true = int(rs.randint(380, 440)), int(rs.randint(250, 300))
